@@ -15,12 +15,14 @@ PLAN = dict(
                           "spawn-only starvation is outside the property and never generated"],
     floor=dict(quick=100, thorough=1000),
     tiers=dict(
-        quick=[det("rel", H, "cs-rel", 16, 50, 4, tso=True, time_cap=30),
+        quick=[det("rel", H, "cs-rel", 16, 120, 4, tso=True, time_cap=40),
                det("dbg", H, "cs-dbg", 8, 15, 4, tso=True, time_cap=25, args=["--no-soft0"]),
+               det("rel-locks", H, "cs-rel", 8, 80, 4, tso=True, time_cap=30, args=["--locks"]),
                det("l1-monitor", L1, "cs-rel", 8, 400, 6, tso=True, time_cap=25, optional=True, case_prefix="mon "),
                tsan("C02", 4, 80)],
         thorough=[det("rel", H, "cs-rel", 16, 1500, 5, tso=True, time_cap=300),
                   det("dbg", H, "cs-dbg", 16, 400, 5, tso=True, time_cap=200, args=["--no-soft0"]),
+                  det("rel-locks", H, "cs-rel", 16, 800, 5, tso=True, time_cap=200, args=["--locks"]),
                   det("enum-wake", H, "cs-rel", 16, 60, 2, tso=True, time_cap=150, enum="wake", enum_cap=200),
                   det("enum-sbload", H, "cs-rel", 16, 60, 2, tso=True, time_cap=150, enum="sbload", enum_cap=300),
                   det("enum-fwake", H, "cs-rel", 16, 60, 2, tso=True, time_cap=150, enum="fwake", enum_cap=100),
